@@ -3,7 +3,9 @@
 from hypothesis import strategies as st
 
 # non-contiguous, partly negative: a lookup by matrix index instead of label fails
-INT_POOL = [-3, 0, 2, 7, 10, 11, 40, 5, 1, 23]
+# -1 and -2 hash alike in CPython; 1000 is not an interned small int (an equal label need
+# not be the same object)
+INT_POOL = [-3, 0, 2, 7, 10, 11, 40, 5, 1, 23, -1, -2, 1000]
 # lexicographic order differs from numeric order; mixed case; contain "E"/"N"
 STR_POOL = ["a", "B", "10", "2", "E1", "N0", "b", "Z", "Ex", "n"]
 
